@@ -551,10 +551,18 @@ def eliminate(facts, cls, info):
         return {kk: (expand(vv, depth) if isinstance(vv, (dict, list)) else vv) for kk, vv in n.items()}
     for D, d in good.items():
         d["E"] = expand(d["E"])
+    family = {cls}
+    changed = True
+    while changed:
+        changed = False
+        for q, r in facts.records.items():
+            if q not in family and any(b.get("t") in family for b in r.get("bases", []) or []):
+                family.add(q)
+                changed = True
     for D, d in info["derived"].items():
         if D in bad:
             continue
-        methods = [f for f in facts.functions.values() if f.get("cls") == cls and f.get("body") is not None]
+        methods = [f for f in facts.functions.values() if f.get("cls") in family and f.get("body") is not None]
         store_nodes = set(id(e[3]) for _, e in d["writes"])
 
         def rep(n):
